@@ -1,5 +1,8 @@
 """C19 — event dispatch and progress completion (DESIGN.md §5 C19)."""
+import contextlib
+import io
 import itertools
+import re
 from . import common as C
 
 PID = 'C19'
@@ -7,18 +10,24 @@ PARALLEL = False
 BATCH = 5000
 BUDGET_S = {'quick': 60, 'thorough': 900}
 RULE = ('emitter: all op sequences up to length L over a fixed alphabet (2 events, 2 senders, 3 '
-        'callbacks incl. a bound method and a `last` one, connect by function name / explicit event, unconnect '
-        'by callback / sender / owner, reset, set_silent (also inside silent contexts), nested silent contexts, '
-        'emits with positional and keyword arguments, with/without single), then random longer ones (these '
-        'also with a connect that raises, single=False, senders that are equal but not identical); '
-        'event-name derivation from function names; reporter: all histories up to length L over {increment, '
-        'set value, set maximum, set_complete, reset} on a small value grid, then random (also with keyword '
-        'arguments). non-trivial = history containing an emit with >= 1 registered callback, or a reporter '
+        'callbacks incl. two bound methods and `last` ones, connect by function name / explicit event, directly '
+        'or through the decorator form with arguments, unconnect by callback (a bound method is looked up on '
+        'its object again: equal, not identical) / sender / owner, reset, set_silent (also inside silent '
+        'contexts), nested silent contexts, emits with positional and keyword arguments, with/without single), '
+        'then random longer ones (these also with a connect that raises, `last=False` and other connect '
+        'keywords, single=False, senders that are equal but not identical); the name of a function is rebound '
+        'to what `connect` returned (decorator semantics); event-name derivation from function names; '
+        'reporter: all histories up to length L over {increment, set value, set maximum, set_complete, reset} '
+        'on a small value grid, then random (also with keyword arguments and with progress / completion '
+        'messages set). non-trivial = history containing an emit with >= 1 registered callback, or a reporter '
         'history with >= 1 completion')
 ASSUMPTIONS = ['callbacks are recording stubs: they record (identity, sender received, args, kwargs) and return '
                'Spec.stubResult of what they received (1000*id + 10*sender + number of positional arguments); '
-               'what they received is compared with the calls of the Lean specification',
-               'the keyword arguments a reporter forwards are checked on the Python side']
+               'what they received is compared with the calls of the Lean specification; positional arguments '
+               'are opaque objects compared by identity',
+               'the keyword arguments a reporter forwards are checked on the Python side',
+               'the text of a reporter message is read only for its kind and its (value, maximum) fields: the '
+               'rendering of absent / ill-formatted fields (PartialFormatter) is not part of the property']
 
 # emitter alphabet -----------------------------------------------------------------------------
 E_ALPHA = [
@@ -26,7 +35,7 @@ E_ALPHA = [
     dict(k='connect', event=0, sender=0, id=1, owner=None, last=False, byname=False),
     dict(k='connect', event=0, sender=None, id=2, owner=7, last=True, byname=False),
     dict(k='connect', event=1, sender=1, id=0, owner=None, last=False, byname=False),
-    dict(k='connect', event=0, sender=1, id=1, owner=None, last=True, byname=True),
+    dict(k='connect', event=0, sender=1, id=1, owner=8, last=True, byname=True),      # bound method, by name
     dict(k='unconnect', items=[{'cb': 0}]),
     dict(k='unconnect', items=[{'obj': 0}]),
     dict(k='unconnect', items=[{'obj': 7}, {'cb': 1}]),
@@ -50,6 +59,10 @@ E_EXTRA = [
     dict(k='emit', event=1, sender=0, single=True),
     dict(k='unconnect', items=[{'obj': 1}]),
     dict(k='exit', exc=True),               # the silent block is left through an exception
+    dict(k='unconnect', items=[{'cb': 2}]),                 # a bound method, looked up again on its object
+    dict(k='unconnect', items=[{'obj': 8}]),
+    dict(k='connect', event=0, sender=None, id=1, owner=None, last=False, byname=False, kwx=True),  # last=False, prio=3
+    dict(k='connect', event=0, sender=0, id=2, owner=7, last=True, byname=False, kwx=True),
 ]
 R_ALPHA = [dict(k='inc'), dict(k='complete'), dict(k='reset', m=None), dict(k='reset', m=1), dict(k='reset', m=2),
            dict(k='reset', m=0), dict(k='set', v=0), dict(k='set', v=1), dict(k='set', v=2), dict(k='set', v=3),
@@ -95,6 +108,20 @@ def tok2py(v):
     return bool(v) if v in (0, 1) else v
 
 
+def _reporter_op(pr, o, kw):
+    k = o['k']
+    if k == 'inc':
+        pr.increment(**kw)
+    elif k == 'set':
+        pr.value = o['v']
+    elif k == 'max':
+        pr.value_max = o['m']
+    elif k == 'complete':
+        pr.set_complete(**kw)
+    elif k == 'reset':
+        pr.reset(o['m']) if o['m'] is not None else pr.reset()
+
+
 def impl(case):
     from phylib.utils import event as EV
     if case['op'] == 'emitter':
@@ -127,36 +154,60 @@ def impl(case):
             return ob
         log = []
 
-        class Owner(object):
-            pass
-        owners = {}
+        class Arg(object):
+            """a positional argument: an opaque object ("passed through unchanged" = the very same object arrives)"""
+            def __init__(self, v):
+                self.v = v
+        owners = {}     # owner token -> an instance of a class of its own
+        cid_of = {}     # id(underlying function) -> callback token
+        names = {}      # (id, function name, None) -> what the NAME of a plain function is bound to
+        bound = {}      # (id, function name, owner) -> (object, attribute) of a bound method
 
-        def make_cb(cid, fname, owner):
+        def owner_obj(tok):
+            if tok not in owners:
+                owners[tok] = type('Owner%d' % tok, (object,), {})()
+            return owners[tok]
+
+        def make_cb(key):
+            cid, fname, owner = key
+
             def body(sender, *args, **kwargs):
                 log.append((cid, sender, args, dict(kwargs)))
                 idx = [i for ob, i in made if ob is sender]
                 return 1000 * cid + 10 * (idx[-1] if idx else 99) + len(args)       # Spec.stubResult
             if owner is None:
-                fn = body
-                fn.__name__ = fname
-                return fn
-            o = owners.setdefault(owner, Owner())
-            import types
+                body.__name__ = fname
+                cid_of[id(body)] = cid
+                names[key] = body
+                return
+            ob = owner_obj(owner)
 
             def meth(self, sender, *args, **kwargs):
                 return body(sender, *args, **kwargs)
             meth.__name__ = fname
-            return types.MethodType(meth, o)
-        cbs = {}    # (id, function name, owner) -> callable (same function object per key)
+            cid_of[id(meth)] = cid
+            attr = 'm%d_%s' % (cid, fname)
+            setattr(type(ob), attr, meth)
+            bound[key] = (ob, attr)
+
+        def current(key):
+            """the callable a user would write down now: a plain function through its name (functions are equal
+            only to themselves); a bound method through `obj.method` evaluated AGAIN - equal to the one
+            registered earlier, never identical to it"""
+            if key in bound:
+                ob, attr = bound[key]
+                return getattr(ob, attr)
+            return names[key]
         cms = []
         outs = []
+        rets = []
         for o in map(norm, case['ops']):
             k = o['k']
             if k == 'connect':
                 key = (o['id'], o['fname'], o['owner'])
-                if key not in cbs:
-                    cbs[key] = make_cb(o['id'], o['fname'], o['owner'])
-                f = cbs[key]
+                if key not in names and key not in bound:
+                    make_cb(key)
+                f = current(key)
                 kw = {}
                 if o['last']:
                     kw['last'] = True
@@ -164,23 +215,31 @@ def impl(case):
                     kw['sender'] = sender_obj(o['sender'])
                 if o['event_arg'] is not None:
                     kw['event'] = o['event_arg']
+                if o.get('kwx'):                      # `last=False` written out, and a keyword emit does not know
+                    kw.setdefault('last', False)
+                    kw['prio'] = 3
                 style = case.get('connect_style', 'direct')
                 try:
-                    if style == 'decorator_args' and kw:
-                        ev.connect(**kw)(f)          # @ev.connect(event=..., sender=..., last=...)
+                    if style == 'decorator_args':
+                        ret = ev.connect(**kw)(f)     # @ev.connect(event=..., sender=..., last=...) / @ev.connect()
                     else:
-                        ev.connect(f, **kw)
+                        ret = ev.connect(f, **kw)     # ev.connect(f, ...) / @ev.connect
                 except ValueError:
-                    pass                              # function name is not on_<event>: nothing registered
+                    rets.append(None)                 # function name is not on_<event>: nothing registered
+                else:
+                    rets.append(o['id'] if ret is f else 'not the function')
+                    if key in names:
+                        # decorator semantics: `@ev.connect def on_x(...)` binds the name to what connect returned
+                        names[key] = ret
             elif k == 'unconnect':
                 items = []
                 for it in o['items']:
                     if 'cb' in it:
-                        items += [f for (cid, fn, ow), f in cbs.items() if cid == it['cb']]
+                        items += [current(key) for key in list(names) + list(bound) if key[0] == it['cb']]
                     elif it['obj'] in (0, 1):
                         items.append(sender_obj(it['obj']))
                     else:
-                        items.append(owners.setdefault(it['obj'], Owner()))
+                        items.append(owner_obj(it['obj']))
                 ev.unconnect(*items)
             elif k == 'reset':
                 ev.reset()
@@ -202,19 +261,37 @@ def impl(case):
             elif k == 'emit':
                 del log[:]
                 sent = sender_obj(o['sender'])
-                ret = ev.emit(o['event'], sent, *o['args'], **{kk: tok2py(v) for kk, v in o['kwargs']})
+                sargs = [Arg(v) for v in o['args']]
+                ret = ev.emit(o['event'], sent, *sargs, **{kk: tok2py(v) for kk, v in o['kwargs']})
                 if ret is None:
                     r = None
                 elif isinstance(ret, list):
                     r = list(ret)
                 else:
                     r = {'one': ret}
-                # what each callback received: the sender is reported by its token only when it IS the
-                # emitted object (99 otherwise)
-                calls = [[c, (o['sender'] if sd is sent else 99), list(a),
+                # what each callback received: the sender and the positional arguments are reported by their
+                # tokens only when they ARE the emitted objects (99 otherwise)
+                calls = [[c, (o['sender'] if sd is sent else 99),
+                          [(x.v if i < len(sargs) and x is sargs[i] else 99) for i, x in enumerate(a)],
                           sorted([kk, int(v)] for kk, v in kw.items())] for (c, sd, a, kw) in log]
                 outs.append(dict(calls=calls, ret=r))
-        return dict(outs=outs, silent=bool(ev.is_silent))
+
+        def snd_tok(sd):
+            if sd is None:
+                return None
+            idx = [i for ob, i in made if ob is sd]
+            return idx[-1] if idx else 99
+
+        def own_tok(f):
+            slf = getattr(f, '__self__', None)
+            for t, ob in owners.items():
+                if ob is slf:
+                    return t
+            return None
+        # the callback list itself (anchored state `_callbacks`): event, sender filter, callback, owner, `last`
+        reg = [[e, snd_tok(sd), cid_of.get(id(getattr(f, '__func__', f)), 99), own_tok(f), bool(k.get('last', None))]
+               for (e, sd, f, k) in ev._callbacks]
+        return dict(outs=outs, silent=bool(ev.is_silent), reg=reg, rets=rets)
     if case['op'] == 'connect_name':
         res = []
         for name in case['names']:
@@ -247,27 +324,44 @@ def impl(case):
         EV.connect(lambda sender, value, value_max, **kw: got.append(('p', value, value_max, kw, sender)),
                    event='progress', sender=pr)
         EV.connect(lambda sender, **kw: got.append(('c', None, None, kw, sender)), event='complete', sender=pr)
+        msgs = case.get('msgs', 0)
+        if msgs:
+            # the reporter announces through its messages: two more callbacks connected with sender=pr
+            pr.set_progress_message('P:{value}:{value_max}:{tag}:{progress:.0f};', line_break=(msgs == 2))
+            pr.set_complete_message('C:{tag};')
         steps = []
+        last, every = len(case['ops']) - 1, 'kw' in case
         for n, o in enumerate(case['ops']):
             del got[:]
             mb = pr.value_max
             k = o['k']
             kw = dict(tag=n) if case.get('kw') and k in ('inc', 'complete') else {}
-            if k == 'inc':
-                pr.increment(**kw)
-            elif k == 'set':
-                pr.value = o['v']
-            elif k == 'max':
-                pr.value_max = o['m']
-            elif k == 'complete':
-                pr.set_complete(**kw)
-            elif k == 'reset':
-                pr.reset(o['m']) if o['m'] is not None else pr.reset()
+            if msgs:
+                buf = io.StringIO()
+                with contextlib.redirect_stdout(buf):
+                    _reporter_op(pr, o, kw)
+            else:
+                _reporter_op(pr, o, kw)
             prog = [g for g in got if g[0] == 'p']
-            steps.append(dict(progress=[prog[0][1], prog[0][2]] if prog else None, n_progress=len(prog),
-                              n_complete=len([g for g in got if g[0] == 'c']),
-                              value=pr.value, max=pr.value_max, max_before=mb,
-                              passed=all(g[3] == kw and g[4] is pr for g in got)))
+            st = dict(progress=[prog[0][1], prog[0][2]] if prog else None, n_progress=len(prog),
+                      n_complete=len([g for g in got if g[0] == 'c']), order=''.join(g[0] for g in got),
+                      value=pr.value, max=pr.value_max, max_before=mb,
+                      passed=all(g[3] == kw and g[4] is pr for g in got))
+            if n == last or every:
+                # the read-only accessors, after the last step (the exhaustive part enumerates every prefix as
+                # a history of its own) and after every step of a random history
+                st['is_complete'] = bool(pr.is_complete())
+                try:
+                    st['frac'] = pr.progress
+                except ZeroDivisionError:
+                    st['frac'] = None                   # maximum 0
+            if msgs:
+                printed = []
+                for kind, rest in re.findall(r'([PC]):([^;]*);', buf.getvalue()):
+                    f = rest.split(':')
+                    printed.append(['p', int(f[0]), int(f[1])] if kind == 'P' else ['c'])
+                st['printed'] = printed
+            steps.append(st)
         EV.reset()
         return steps
     raise ValueError(case['op'])
@@ -289,6 +383,8 @@ def model_query(case, impl_res):
     if case['op'] == 'emitter':
         return dict(p=PID, op='emitter', ops=[lean_op(o) for o in case['ops']])
     q = dict(p=PID, op=case['op'], ops=case['ops'])
+    if case.get('msgs'):
+        q['msgs'] = True
     if case['op'] == 'reporter' and 'ok' in impl_res:
         obs = []
         for o, s in zip(case['ops'], impl_res['ok']):
@@ -324,6 +420,14 @@ def judge(case, impl_res, ans):
                 return 'SPEC: emit %d: returned %s, expected %s' % (i, o['ret'], s['ret'])
         if ok['silent'] != m['silent']:
             return 'CORR: final silent flag differs from the model'
+        if m['reg'] != m['reg_spec']:
+            return 'MACHINERY: model callback list differs from its Lean spec (contradicts the theorem)'
+        if ok['rets'] != m['rets']:
+            return ('CORR: connect returned %s (callback token / None = raised ValueError), the model (event.py:108: '
+                    'the function itself) %s' % (ok['rets'], m['rets']))
+        if ok['reg'] != m['reg']:
+            return ('CORR: the callback list after the history is %s, the model has %s '
+                    '(event, sender filter, callback, owner, last)' % (ok['reg'], m['reg']))
         return None
     if case['op'] == 'connect_name':
         for name, got, exp in zip(case['names'], ok, m['events']):
@@ -345,9 +449,24 @@ def judge(case, impl_res, ans):
         if m['impl_spec'] is not True:
             return 'SPEC: completion announcements violate the once-per-crossing rule'
         for i, (s, mm) in enumerate(zip(ok, m['model'])):
+            if 'printed' in s and [x[0] for x in s['printed']].count('c') != s['n_complete']:
+                return 'SPEC: step %d: the completion message was printed %d time(s) for %d announcement(s)' % (
+                    i, [x[0] for x in s['printed']].count('c'), s['n_complete'])
             if (s['n_complete'] > 0) != mm['complete'] or s['progress'] != mm['progress'] or \
                     s['value'] != mm['value'] or s['max'] != mm['max']:
                 return 'CORR: step %d differs from the model' % i
+            if s['order'] != mm['ev']:
+                return 'CORR: step %d: events emitted in the order %s, model %s' % (i, list(s['order']), list(mm['ev']))
+            if 'printed' in s and s['printed'] != mm['printed']:
+                return 'CORR: step %d: messages printed %s, model %s' % (i, s['printed'], mm['printed'])
+            if 'is_complete' not in s:
+                continue
+            if s['is_complete'] != mm['ic']:
+                return 'CORR: step %d: is_complete() is %s, model %s' % (i, s['is_complete'], mm['ic'])
+            # value / float(max) of two small integers is correctly rounded on both sides: exact comparison
+            if (s['frac'] is None) != (mm['fr'] is None) or \
+                    (s['frac'] is not None and s['frac'] != mm['fr'][0] / float(mm['fr'][1])):
+                return 'CORR: step %d: progress is %s, model %s' % (i, s['frac'], mm['fr'])
         return None
 
 
@@ -376,6 +495,7 @@ def tally(rep, case, impl_res, ans):
         rep.count('connect_style:' + case.get('connect_style', 'direct'))
         d = mx = 0
         inside = raises = False
+        bound_ids = set()
         for o in case['ops']:
             if o['k'] == 'enter':
                 d += 1; mx = max(mx, d)
@@ -387,6 +507,12 @@ def tally(rep, case, impl_res, ans):
                 inside = True
             elif o['k'] == 'connect' and o.get('fname') in ('spam', 'on_'):
                 raises = True
+            elif o['k'] == 'connect' and o.get('kwx'):
+                rep.count('connect_with_last_false_and_other_keywords')
+            elif o['k'] == 'unconnect' and any(it.get('cb') in bound_ids for it in o['items']):
+                rep.count('unconnect_by_re_evaluated_bound_method')
+            if o['k'] == 'connect' and o.get('owner') is not None:
+                bound_ids.add(o['id'])
         rep.count('max_silent_depth:%d' % mx)
         if inside:
             rep.count('set_silent_inside_context')
@@ -394,6 +520,10 @@ def tally(rep, case, impl_res, ans):
             rep.count('connect_raises')
     elif 'ok' in impl_res:
         rep.count('completions:%d' % min(3, sum(s['n_complete'] for s in impl_res['ok'])))
+        if case.get('msgs'):
+            rep.count('reporter_with_messages')
+            rep.count('completion_messages:%d' % min(3, sum(len([x for x in s['printed'] if x[0] == 'c'])
+                                                              for s in impl_res['ok'])))
 
 
 def classify(case, impl_res, ans, why):
@@ -433,9 +563,12 @@ def gen(tier, rng):
                     # the same history with every silent block left through an exception
                     yield dict(p=PID, op='emitter', ops=[dict(o, exc=True) if o['k'] == 'exit' else dict(o) for o in ops],
                                senders=['plain', 'falsy', 'mixed'][nemit % 3], connect_style='direct')
+    nrep = 0
     for L in range(1, LR + 1):
         for ops in itertools.product(R_ALPHA, repeat=L):
-            yield dict(p=PID, op='reporter', ops=[dict(o) for o in ops])
+            nrep += 1
+            # every 8th history on a reporter with progress / completion messages
+            yield dict(p=PID, op='reporter', ops=[dict(o) for o in ops], msgs=(1 if nrep % 8 == 0 else 0))
     # event name derived from the function name (connect without event=)
     names = ['on_e0', 'on_', 'on', 'spam', 'on_x_y', 'On_e', 'on_é', '_on_e', 'on__', 'on_ e', 'on_a\n', 'on_a\nb',
              'on_\n', 'on_on_', 'xon_e', 'on_e ', 'o', '']
@@ -461,4 +594,4 @@ def gen(tier, rng):
                        connect_style=rng.pick(['direct', 'decorator_args']))
         else:
             yield dict(p=PID, op='reporter', ops=[dict(rng.pick(R_ALPHA)) for _ in range(rng.randrange(3, 12))],
-                       kw=rng.random() < .5)
+                       kw=rng.random() < .5, msgs=rng.pick([0, 0, 1, 2]))
